@@ -5,7 +5,8 @@
 DIFF=$1; shift
 WT=/tmp/seedeval
 cd "$(dirname "$0")/.."
-git -C "$WT" checkout -q -- . ; git -C "$WT" apply "$DIFF" || { echo "APPLY-FAILED $DIFF"; exit 3; }
+git -C "$WT" checkout -q -- .
+git -C "$WT" apply "$DIFF" 2>/dev/null || (cd "$WT" && patch -s -p1 --fuzz=3 --no-backup-if-mismatch < "$DIFF") || { echo "APPLY-FAILED $DIFF"; exit 3; }
 for p in "$@"; do
   out=$(SCORES_REPO=$WT timeout 1800 ./check $p 2>&1); rc=$?
   echo "$(basename $(dirname $(dirname $DIFF)))/$(basename $DIFF) check=$p rc=$rc :: $(echo "$out" | grep '^VIOLATION' | head -2 | tr '\n' ' ') $(echo "$out" | tail -1 | cut -c1-120)"
